@@ -90,6 +90,13 @@ PROBLEMS = {
         "constraints": [["rel", ">=", ["sum", _x], ["raw", 1.0, "float"], "direct"], ["rel", "<=", ["el", _x, 2], ["raw", 2.0, "float"], "direct"]],
         "method": "auto",
     },
+    "linprog-maximize": {
+        "decls": [{"k": "vec", "name": "x", "n": 3, "lb": 0.5, "ub": 10.0}],
+        "objective": ["bin", "-", ["matmul", ["arr", [3.0, 4.0, -1.0]], _x], ["raw", 2.0, "float"]],
+        "sense": "max",
+        "constraints": [["rel", "<=", ["sum", _x], ["raw", 12.0, "float"], "direct"], ["rel", "<=", ["el", _x, 1], ["raw", 2.0, "float"], "direct"]],
+        "method": "highs-ds",
+    },
 }
 CALLBACK_KINDS = ["fun", "jac", "hess", "cfun", "cjac"]
 BUILD_KINDS = ["build:compile_expression", "build:compile_jacobian", "build:compile_hessian"]
@@ -243,7 +250,7 @@ def run(ctx, rec):
                                arm=lambda kind=kind, k=k, mk=mk: fp.arm(kind, k, mk),
                                disarm=lambda: (fp.fired, fp.disarm())[0])
             # (2) the solver entry itself: raise before / after j evaluations of the objective
-            is_lp = pname == "linprog"
+            is_lp = pname.startswith("linprog")
             for j in (0, 1, 3):
                 for exc_name, mk in EXC.items():
                     i += 1
